@@ -62,9 +62,12 @@ Record wst := mkW {
 }.
 Definition new_w : wst := mkW 0 0 0 0 [] 0 [] 0.
 
+(* where a search on an active fraction is parked: search.start, after-mapping, after-ids, leaf *)
+Inductive rpc := PStart | PMapped | PIds | PLeaf.
+
 Inductive rop :=
 | RIdle
-| RSearch (g : nat) (q : qspec) (pc : nat) (ifrom ito : N) (mapping : list nat) (nids : nat)
+| RSearch (g : nat) (q : qspec) (pc : rpc) (ifrom ito : N) (mapping : list nat) (nids : nat)
           (snaps : list (list nat)) (pending : list N)
 | RFetch (g : nat) (ids : list (id * bool)) (nblocks : nat).
 Record rst := mkR { r_snap : list nat; r_op : rop }.
@@ -321,7 +324,7 @@ Fixpoint advance (st : state) (r g : nat) (q : qspec) (ifrom ito : N) (mapping :
        ORes (search_result (firstn nids (f_ids f)) q ifrom ito mapping snaps))
   | t :: rest =>
       if has_tok t (f_toks (getf st g))
-      then (set_op st r (RSearch g q 23 ifrom ito mapping nids snaps pending), OHook 23)
+      then (set_op st r (RSearch g q PLeaf ifrom ito mapping nids snaps pending), OHook 23)
       else advance st r g q ifrom ito mapping nids (snaps ++ [[]]) rest
   end.
 
@@ -340,7 +343,7 @@ Definition step_sb (c : config) (st : state) (r j qn : nat) : state * obs :=
           else if negb (intersects f qfrom qto) then (st, ORes [])
           else if f_act f then
                  (set_op (setf st g (fun f => set_rl f (S (f_rl f)))) r
-                         (RSearch g q 20 (f_from f) (f_to f) [] 0 [] []), OHook 20)
+                         (RSearch g q PStart (f_from f) (f_to f) [] 0 [] []), OHook 20)
           else if f_ssui f then (st, ORes [])
           else (st, ORes (sealed_search f q))
       | _, _ => (st, ODisabled)
@@ -396,15 +399,15 @@ Definition step_r (c : config) (st : state) (r : nat) : state * obs :=
       | RSearch g q pc ifrom ito mapping nids snaps pending =>
           let f := getf st g in
           match pc with
-          | 20 => let allp := merge_tok (get_tok 0%N (f_toks f)) in
+          | PStart => let allp := merge_tok (get_tok 0%N (f_toks f)) in
                   (set_op (setf st g (fun f => set_toks f (upd_tok 0%N merge_tok (f_toks f)))) r
-                          (RSearch g q 21 ifrom ito (tl_sorted allp) 0 [] []), OHook 21)
-          | 21 => let n := length (f_ids f) in
+                          (RSearch g q PMapped ifrom ito (tl_sorted allp) 0 [] []), OHook 21)
+          | PMapped => let n := length (f_ids f) in
                   if forallb (fun lid => Nat.ltb lid n) mapping
-                  then (set_op st r (RSearch g q 22 ifrom ito mapping n [] []), OHook 22)
+                  then (set_op st r (RSearch g q PIds ifrom ito mapping n [] []), OHook 22)
                   else (set_op (setf st g (fun f => set_rl f (pred (f_rl f)))) r RIdle, OErr)
-          | 22 => advance st r g q ifrom ito mapping nids [] (leaves (fst (fst q)))
-          | _ => match pending with
+          | PIds => advance st r g q ifrom ito mapping nids [] (leaves (fst (fst q)))
+          | PLeaf => match pending with
                  | [] => (st, ODisabled)
                  | t :: rest =>
                      let merged := merge_tok (get_tok t (f_toks f)) in
